@@ -150,6 +150,10 @@ mod imp {
             Sym::K3(..) => ST { op: "k", args: vec![SA::Child(c(0)), SA::Child(c(1)), SA::Child(c(2))] },
             Sym::W(a, _) => ST { op: "w", args: vec![SA::Slot(*a), SA::Child(c(0))] },
             Sym::Case(_, l, r) => ST { op: "case", args: vec![SA::Child(c(0)), SA::Bind(vec![l.slot], c(1)), SA::Bind(vec![r.slot], c(2))] },
+            Sym::Sc(2, _) => ST { op: "s2", args: vec![SA::Child(c(0))] },
+            Sym::Sc(_, _) => ST { op: "s3", args: vec![SA::Child(c(0))] },
+            Sym::Num(1) => ST { op: "n1", args: vec![] },
+            Sym::Num(_) => ST { op: "n2", args: vec![] },
         }
     }
 
